@@ -373,3 +373,93 @@ func H_C04_lookup_over_revisions() {
 	vAssert("close", r.Close() == nil)
 	vReach("end")
 }
+
+// H_C02_whole_file_one_byte: a well-formed file with one byte replaced by an arbitrary value never crashes or hangs the
+// reader - at worst it is refused or loses text.
+//
+//symgo:harness prop=C02 kernel=whole-file-single-byte hang=1 depth=400 loop=100000 steps=80000000
+//symgo:desc a one-page PDF (classic cross-reference table, or cross-reference stream with an object stream - enumerated) produced by the harness-local writer, about 500 bytes; one byte at an enumerated offset (quick: every offset in the trailer/xref/object-header regions plus every 4th elsewhere; thorough: every offset) is replaced by a fully symbolic byte; the file is opened and PageCount, Text of page 1 and Close are called: no run-time panic, no unbounded recursion (call depth 400) or loop (100000 iterations)
+func H_C02_whole_file_one_byte() {
+	xrefStream := vAnyIntIn(0, 1) == 1
+	w := &vPDFWriter{eol: "\n", offsets: map[int]int{}}
+	if xrefStream {
+		w.packed = map[int]string{}
+	}
+	w.write("%PDF-1.5\n")
+	w.obj(1, "<< /Type /Catalog /Pages 2 0 R >>")
+	w.obj(2, "<< /Type /Pages /Kids [3 0 R] /Count 1 /MediaBox [0 0 612 792] /Resources << /Font << /F1 4 0 R >> >> >>")
+	w.obj(3, "<< /Type /Page /Parent 2 0 R /Contents 5 0 R >>")
+	w.obj(4, "<< /Type /Font /Subtype /Type1 /BaseFont /Helvetica /Encoding /WinAnsiEncoding >>")
+	data := "BT /F1 12 Tf 72 720 Td (Hi) Tj ET"
+	w.stream(5, "/Length "+strconv.Itoa(len(data)), data)
+	xrefAt := w.xref(xrefStream, xrefStream, -1, []int{1, 2, 3, 4, 5}, nil, 6, 7, 8)
+	b := []byte(string(w.buf))
+	pos := vAnyIntIn(0, len(b)-1)
+	if vTier() == 0 {
+		// quick: all offsets from the first cross-reference byte on, the object headers, every 4th elsewhere
+		hot := pos >= xrefAt
+		for _, o := range w.offsets {
+			if pos >= o && pos < o+12 {
+				hot = true
+			}
+		}
+		vAssume(hot || pos%4 == 0)
+	}
+	b[pos] = vAnyByte()
+	name := "/tmp/symgo-replay-c02.pdf"
+	vFileContent(name, string(b))
+	e := Open(name)
+	_, _ = e.PageCount()
+	_, _, _ = e.Pages(1).Text()
+	_ = e.Close()
+	vReach("end")
+}
+
+// vSmallPDF writes a one-page document showing the given text; the font either carries its own /Widths (which must not
+// rub off on any shared table) or relies on the standard metrics.
+func vSmallPDF(text string, ownWidths, xrefStream bool) string {
+	w := &vPDFWriter{eol: "\n", offsets: map[int]int{}}
+	if xrefStream {
+		w.packed = map[int]string{}
+	}
+	w.write("%PDF-1.5\n")
+	w.obj(1, "<< /Type /Catalog /Pages 2 0 R >>")
+	w.obj(2, "<< /Type /Pages /Kids [3 0 R] /Count 1 /MediaBox [0 0 612 792] /Resources << /Font << /F1 4 0 R >> >> >>")
+	w.obj(3, "<< /Type /Page /Parent 2 0 R /Contents 5 0 R >>")
+	font := "<< /Type /Font /Subtype /Type1 /BaseFont /Helvetica /Encoding /WinAnsiEncoding"
+	if ownWidths {
+		font += " /FirstChar 32 /LastChar 40 /Widths [100 100 100 100 100 100 100 100 100]"
+	}
+	w.obj(4, font+" >>")
+	data := "BT /F1 12 Tf 72 720 Td (" + text + ") Tj 40 0 Td (tail) Tj ET"
+	w.stream(5, "/Length "+strconv.Itoa(len(data)), data)
+	w.xref(xrefStream, xrefStream, -1, []int{1, 2, 3, 4, 5}, nil, 6, 7, 8)
+	return string(w.buf)
+}
+
+// H_C03_whole_file_repeatable: extracting a document gives the same text alone, again, and after extracting a different
+// document in between - and the whole pipeline writes nothing to package-level memory on the way.
+//
+//symgo:harness prop=C03 kernel=F4-whole-pipeline-repeatable globwrite=1
+//symgo:desc two one-page PDFs from the harness-local writer, read through the file content model (natively real temporary files): A shows "Hello (1) World" with standard Helvetica metrics; B (enumerated: Helvetica with its own /Widths array, or no B at all) shows other text; cross-reference kind enumerated; sequence Text(A), Text(A), Text(B), Text(A) plus PageCount: every Text(A) is byte-identical; on every path no store, map update or append goes through memory reachable from package-level variables (glob.write), from file open to Close
+func H_C03_whole_file_repeatable() {
+	xs := vAnyIntIn(0, 1) == 1
+	withB := vAnyIntIn(0, 1) == 1
+	a, b := "/tmp/symgo-replay-c03a.pdf", "/tmp/symgo-replay-c03b.pdf"
+	vFileContent(a, vSmallPDF("Hello \\(1\\) World", false, xs))
+	vFileContent(b, vSmallPDF("Other !\"#$ text", true, !xs))
+	t1, _, e1 := Open(a).Text()
+	vAssert("first-extraction-ok", e1 == nil && strings.Contains(t1, "Hello"))
+	t2, _, e2 := Open(a).Text()
+	vAssert("repeating-gives-identical-text", e2 == nil && t2 == t1)
+	if withB {
+		tb, _, eb := Open(b).Text()
+		vAssert("other-document-ok", eb == nil && strings.Contains(tb, "tail"))
+	}
+	t3, _, e3 := Open(a).Text()
+	vAssert("same-text-after-other-extractions", e3 == nil && t3 == t1)
+	n, en := Open(a).PageCount()
+	vAssert("page-count", en == nil && n == 1)
+	vObserveStr("text", t3)
+	vReach("end")
+}
